@@ -138,6 +138,11 @@ theorem pack_step (o : BitOrder) (g rest : List Nat) (hg : g.length = 8) :
     packFlat o (g ++ rest) = (packGroup o g >>= fun b => packFlat o rest >>= fun bs => .ok (b :: bs)) :=
   packFlat_append8 o g rest hg
 
+/-- **unpack ∘ pack = zero padding**: packing a list of bits and unpacking the bytes gives the bits followed by
+the padding zeros -/
+theorem unpack_pack_flat (o : BitOrder) (xs : List Nat) (hb : ∀ x ∈ xs, x < 2) :
+    (packFlat o xs).map (unpackFlat o) = .ok (pad8 xs) := unpackFlat_packFlat o xs hb
+
 /-! ## arrays: flat form and lanes -/
 
 /-- the flat form of `unpack_bits` (no `count`): a 1-D array of `8 · len` bits -/
@@ -288,6 +293,18 @@ theorem unpack_count_neg (o : BitOrder) (a : Arr Nat) (c : Nat) (hc : 0 < c) :
   · rw [if_neg (by omega), if_pos h]
     exact slice1_ok _ _ (by rw [unpackFlat_length]; omega)
   · rw [if_pos (by omega), if_neg h]
+
+/-- **`count` undoes the padding**: unpacking the packed bits with `count` = the original number of bits
+returns exactly the original bits, whatever their number -/
+theorem unpack_count_undoes_padding (o : BitOrder) (xs : List Nat) (hb : ∀ x ∈ xs, x < 2) :
+    (packFlat o xs >>= fun bs => unpackFlatArr o (some (Int.ofNat xs.length)) (Arr.flat bs)) = .ok (Arr.flat xs) := by
+  obtain ⟨bs, h1, h2⟩ := res_map_ok _ _ _ (unpack_pack_flat o xs hb)
+  rw [h1]; simp only [Res.bind_ok]
+  rw [unpack_count_nonneg]
+  have hl : 8 * bs.length = (pad8 xs).length := by rw [← h2, unpackFlat_length]
+  have hle : xs.length ≤ (pad8 xs).length := by unfold pad8; split <;> simp
+  have : (Arr.flat bs).elems = bs := rfl
+  rw [this, if_pos (by omega), h2, take_pad8]
 
 /-- whatever the `count`, the flat form answers with a value or an error value, never a panic -/
 theorem unpack_count_never_panics (o : BitOrder) (a : Arr Nat) (count : Option Int) :
